@@ -472,7 +472,7 @@ fn formats_flagged() -> Vec<String> {
         }
     }
     // unknown directives, modifiers, literals around
-    for u in ["%q", "%Q", "%é", "%👍", "%-5q", "%_0-^#^q", "%:b", "%:", "%::", "%::x", "%Eq", "%10é", "a%%b", "é%Yé", "%Y-%m-%dT%H:%M:%S.%L%:z", "%e-%^b-%Y", "%%%Y%%"] {
+    for u in ["%q", "%Q", "%é", "%👍", "%-5q", "%_0-^#^q", "%:b", "%:", "%::", "%::x", "%:é", "%::é", "%:::é", "%:👍", "%-:é", "%10:€", "%::€z", "é%:é", "%Eq", "%10é", "a%%b", "é%Yé", "%Y-%m-%dT%H:%M:%S.%L%:z", "%e-%^b-%Y", "%%%Y%%"] {
         v.push(u.to_string());
     }
     v
